@@ -1370,6 +1370,32 @@ def v_tuple(*a):
     return builtins.tuple(*a)
 
 
+def v_zip(*its, strict=False):
+    """zip of symbolic sequences: the sequence of tuples of their elements (position by position)."""
+    its = tuple(sym.resolve(x) for x in its)
+    if not any(isinstance(x, SymSeq) or is_symbolic(x) or hasattr(x, "__symseq__") for x in its):
+        return builtins.zip(*its, strict=strict)
+    qs = []
+    for x in its:
+        q = as_symseq(x) if not isinstance(x, (list, tuple)) else None
+        if q is None:
+            raise Unsupported("zip of a symbolic sequence with something that is not one")
+        qs.append(q)
+    c = cur()
+    n = qs[0].length
+    for q in qs[1:]:
+        if strict:
+            if c.fork(tm.Ne(q.length, n)):
+                raise ValueError("zip() arguments have different lengths")
+        else:
+            n = tm.Min(n, q.length)
+    out = SymSeq(lambda i: tuple(q.elem(i) for q in qs), n, name="zip")
+    for extra in ("sorted", "container"):
+        if hasattr(qs[0], extra):
+            setattr(out, extra, getattr(qs[0], extra))
+    return out
+
+
 def v_print(*a, **k):
     return None
 
@@ -1443,12 +1469,12 @@ class _NoLog:
 BUILTIN_OVERRIDES = dict(
     len=v_len, sorted=v_sorted, isinstance=v_isinstance, int=v_int, bool=v_bool, str=v_str,
     bytes=v_bytes, min=v_min, max=v_max, any=v_any, all=v_all, dict=v_dict, set=v_set, list=v_list,
-    print=v_print, getattr=v_getattr, issubclass=v_issubclass, sum=v_sum, tuple=v_tuple,
+    print=v_print, getattr=v_getattr, issubclass=v_issubclass, sum=v_sum, tuple=v_tuple, zip=v_zip,
 )
 v_type.__vc_real__ = type
 BUILTIN_OVERRIDES["type"] = v_type
 for _k, _real in (("int", int), ("bool", bool), ("str", str), ("bytes", bytes), ("dict", dict),
-                  ("set", set), ("list", list), ("tuple", tuple)):
+                  ("set", set), ("list", list), ("tuple", tuple), ("zip", zip)):
     BUILTIN_OVERRIDES[_k].__vc_real__ = _real
 
 
